@@ -165,6 +165,14 @@ impl Session {
                         self.vis.get()
                     }
                 }
+                // above every seqno ever issued when no snapshot is held
+                Some("high") => {
+                    if let Some(m) = self.snaps.iter().min() {
+                        m.saturating_sub(1)
+                    } else {
+                        TOP
+                    }
+                }
                 _ => 0,
             };
             op["w"] = json!(w);
@@ -519,8 +527,42 @@ impl Session {
         json!({"k": self.conc.key_back(key, self.nkeys), "s": seqno, "t": t, "v": v})
     }
 
+    /// directory listing: table ids, blob file ids, names in the tree's root folder
+    fn listing(&self) -> Value {
+        let ids = |sub: &str| -> Vec<u64> {
+            let mut v: Vec<u64> = std::fs::read_dir(self.dir.join(sub))
+                .map(|rd| {
+                    rd.flatten()
+                        .filter_map(|e| e.file_name().to_str().and_then(|s| s.parse::<u64>().ok()))
+                        .collect()
+                })
+                .unwrap_or_default();
+            v.sort_unstable();
+            v
+        };
+        let mut vfiles: Vec<u64> = vec![];
+        let mut other: Vec<String> = vec![];
+        if let Ok(rd) = std::fs::read_dir(&self.dir) {
+            for e in rd.flatten() {
+                if e.path().is_dir() {
+                    continue;
+                }
+                let name = e.file_name().to_string_lossy().to_string();
+                if let Some(n) = name.strip_prefix('v').and_then(|x| x.parse::<u64>().ok()) {
+                    vfiles.push(n);
+                } else {
+                    other.push(name);
+                }
+            }
+        }
+        vfiles.sort_unstable();
+        other.sort();
+        json!({"tables": ids("tables"), "blobs": ids("blobs"), "v": vfiles, "other": other})
+    }
+
     /// Projects the whole state of the tree.
     pub fn project(&self) -> Value {
+        let ls = self.listing();
         let idx = self.index();
         let d = lsm_tree::verif::dump(idx);
         let mut mems: BTreeMap<u64, Value> = BTreeMap::new();
@@ -591,6 +633,7 @@ impl Session {
             "tbls": tbls.into_values().collect::<Vec<_>>(),
             "hist": hist, "hidden": d.hidden, "snaps": snaps,
             "bfs": self.blob_files_json(),
+            "ls": ls,
         })
     }
 
